@@ -340,9 +340,7 @@ func (x *Exec) applyModifies(post, pre *State, fr *Frame, env *Env, m *SExpr, wh
 				kk := x.E.fresh("k", IntS)
 				post.assume(Forall([]*Term{kk}, Implies(Or(Lt(kk, sv.L[1]), Ge(kk, Add(sv.L[1], sv.L[2]))), Eq(Select(na, kk), Select(oldInner, kk)))))
 			}
-			if x.dry {
-				x.dryEff.heap[key] = true
-			}
+			x.effHeap(key, sv.L[0])
 		}
 	case "sel":
 		if m.Name == "*" {
@@ -581,9 +579,7 @@ func (x *Exec) copyBuiltin(st *State, fr *Frame, dst, src Val, where string, k f
 		}
 		na := x.E.fresh("copied", oldInner.S)
 		st.heap[key] = Store(arr, dst.L[0], na)
-		if x.dry {
-			x.dryEff.heap[key] = true
-		}
+		x.effHeap(key, dst.L[0])
 		kk := x.E.fresh("k", x.idxConst(0).S)
 		if x.tc.bv {
 			st.assume(Forall([]*Term{kk}, Implies(BVCmp("bvult", kk, n), Eq(Select(na, Add(dst.L[1], kk)), Select(srcInner, Add(src.L[1], kk))))))
